@@ -640,17 +640,36 @@ theorem parseInteger_intText (ch : Int) (r : List Char) (hr : IntStop r) :
   rw [hspan]
   simp [pyInt_intText]
 
-/-- what follows a chain: the end of the input or the `+` that starts the next chain -/
-def ChainStop (r : List Char) : Prop := r = [] ∨ ∃ t, r = '+' :: t
+/-- what follows a chain: the end of the input, the `+` or the `//` that starts the next chain -/
+def ChainStop (r : List Char) : Prop := r = [] ∨ (∃ t, r = '+' :: t) ∨ (∃ t, r = '/' :: '/' :: t)
+
+/-- `self._current_connection` after the chain -/
+def stopConn (conn : Option Bool) : List Char → Option Bool
+  | [] => conn
+  | '+' :: _ => some false
+  | _ => some true
+
+/-- the input after the joiner -/
+def stopRest : List Char → List Char
+  | [] => []
+  | '+' :: t => t
+  | r => r.drop 2
 
 theorem ChainStop.modStop {r : List Char} (h : ChainStop r) : ModStop r := by
-  rcases h with h | ⟨t, h⟩ <;> subst h
+  rcases h with h | ⟨t, h⟩ | ⟨t, h⟩ <;> subst h
   · exact ModStop.nil
   · exact ModStop.cons (by decide) (by decide)
+  · exact ModStop.cons (by decide) (by decide)
 
-theorem ChainStop.head_ne {r : List Char} (h : ChainStop r) (x : Char) (hx : x ≠ '+') : r.head? ≠ some x := by
-  rcases h with h | ⟨t, h⟩ <;> subst h <;> simp
-  exact fun h => hx h.symm
+theorem ChainStop.head_ne {r : List Char} (h : ChainStop r) (x : Char) (hx : x ≠ '+') (hx2 : x ≠ '/') :
+    r.head? ≠ some x := by
+  rcases h with h | ⟨t, h⟩ | ⟨t, h⟩ <;> subst h <;> simp
+  · exact fun h => hx h.symm
+  · exact fun h => hx2 h.symm
+
+theorem stopRest_length (r : List Char) : (stopRest r).length ≤ r.length := by
+  unfold stopRest
+  split <;> simp
 
 theorem intText_head (ch : Int) : ∀ x, (intText ch).head? = some x → x ≠ '/' := by
   intro x hx
@@ -666,10 +685,11 @@ theorem intText_ne_nil (ch : Int) : intText ch ≠ [] := by
   · exact natText_ne_nil _
 
 theorem parseEnd_stop (a : Annotation) (conn : Option Bool) (r : List Char) (h : ChainStop r) :
-    parseEnd a conn r = .ok (a, (if r = [] then conn else some false), r.tail) := by
-  rcases h with h | ⟨t, h⟩ <;> subst h
-  · rw [parseEnd.eq_def]; simp
-  · rw [parseEnd.eq_def]; simp
+    parseEnd a conn r = .ok (a, stopConn conn r, stopRest r) := by
+  rcases h with h | ⟨t, h⟩ | ⟨t, h⟩ <;> subst h
+  · rw [parseEnd.eq_def]; simp [stopConn, stopRest]
+  · rw [parseEnd.eq_def]; simp [stopConn, stopRest]
+  · rw [parseEnd.eq_def]; simp [stopConn, stopRest]
 
 /-- **charge and adducts**: `/z[adduct]…` is read back by `_parse_sequence_end` -/
 theorem parseEnd_charge (plus : Bool) (a : Annotation) (ha0 : a.adducts = none)
@@ -697,7 +717,7 @@ theorem parseEnd_charge (plus : Bool) (a : Annotation) (ha0 : a.adducts = none)
     cases ad with
     | none =>
       have : (optMods '[' ']' plus none ++ rest).head? ≠ some '[' := by
-        simpa [optMods] using hrest.head_ne '[' (by decide)
+        simpa [optMods] using hrest.head_ne '[' (by decide) (by decide)
       rw [if_neg this]
       simp [optMods, ha0]
     | some l =>
@@ -716,7 +736,7 @@ theorem parseEnd_charge (plus : Bool) (a : Annotation) (ha0 : a.adducts = none)
         | cons m t => exact serializeMods_head _ _ _ _ _ _
       rw [if_pos hhead]
       have hpm := parseMods_serialize '[' ']' (by decide) (by decide) (by decide) (by decide) (by decide) plus l hcan
-        rest hrest.modStop (hrest.head_ne '[' (by decide))
+        rest hrest.modStop (hrest.head_ne '[' (by decide) (by decide))
       split
       · rename_i e he
         rw [show optMods '[' ']' plus (some l) = serializeMods '[' ']' plus l from rfl, hpm] at he; cases he
